@@ -296,12 +296,73 @@ def bdd_from_tt(nv, variables, ttbits):
     return bdd_from_fn(nv, variables, fn)
 
 
+def structured_tt(rng, k):
+    """truth table (first variable most significant) of a STRUCTURED function of k variables: symmetric functions (parity,
+    threshold, exactly-m, majority), self-dual functions, functions invariant under flipping one variable together with the
+    output, cubes and clauses, a multiplexer, equality of two halves — the shapes random tables practically never produce"""
+    n = 1 << k
+    ones = lambda i: bin(i).count("1")
+    kind = rng.choice(["parity", "threshold", "exactly", "majority", "selfdual", "flipsym", "cube", "clause", "mux", "halves", "monotone"])
+    if k == 0:
+        return [rng.random() < 0.5]
+    if kind == "parity":
+        odd = rng.random() < 0.5
+        return [(ones(i) % 2 == 1) == odd for i in range(n)]
+    if kind == "threshold":
+        m = rng.randint(0, k + 1)
+        return [ones(i) >= m for i in range(n)]
+    if kind == "exactly":
+        m = rng.randint(0, k)
+        return [ones(i) == m for i in range(n)]
+    if kind == "majority":
+        return [2 * ones(i) > k for i in range(n)]
+    if kind == "selfdual":            # f(not x) = not f(x): choose the lower half freely
+        tt = [False] * n
+        for i in range(n // 2):
+            tt[i] = rng.random() < 0.5
+            tt[n - 1 - i] = not tt[i]
+        return tt
+    if kind == "flipsym":             # f(x with variable j flipped) = not f(x)
+        j = rng.randrange(k)
+        bit = 1 << (k - 1 - j)
+        tt = [False] * n
+        for i in range(n):
+            if not i & bit:
+                tt[i] = rng.random() < 0.5
+                tt[i | bit] = not tt[i]
+        return tt
+    if kind in ("cube", "clause"):
+        lits = [(j, rng.random() < 0.5) for j in range(k) if rng.random() < 0.7]
+        sat = lambda i: [bool(i >> (k - 1 - j) & 1) == c for j, c in lits]
+        return [all(sat(i)) if kind == "cube" else any(sat(i)) for i in range(n)]
+    if kind == "mux" and k >= 3:      # first variable selects between two functions of the rest
+        half = n // 2
+        g = [rng.random() < 0.5 for _ in range(half)]
+        h = g if rng.random() < 0.2 else [rng.random() < 0.5 for _ in range(half)]
+        return g + h
+    if kind == "halves" and k >= 2:   # the first half of the variables equals (or differs everywhere from) the second half
+        a = k // 2
+        eq = rng.random() < 0.5
+        out = []
+        for i in range(n):
+            bits = [bool(i >> (k - 1 - j) & 1) for j in range(k)]
+            same = all(bits[j] == bits[a + j] for j in range(a))
+            out.append(same == eq)
+        return out
+    # monotone: an upward closed set generated by a few random minterms
+    gens = [rng.randrange(n) for _ in range(rng.randint(1, 3))]
+    return [any(i & g == g for g in gens) for i in range(n)]
+
+
 def random_bdd(rng, nv, max_support=None, density=None):
-    """random function over a random subset of the variables (skipped levels are common)"""
+    """random function over a random subset of the variables (skipped levels are common); one in six is a structured function
+    (symmetric, self-dual, flip-symmetric, cube, clause, multiplexer, ...: `structured_tt`)"""
     if max_support is None:
         max_support = min(nv, 5)
     k = rng.randint(0, min(nv, max_support))
     variables = sorted(rng.sample(range(nv), k))
+    if density is None and rng.random() < 1 / 6:
+        return bdd_from_tt(nv, variables, structured_tt(rng, k))
     p = density if density is not None else rng.choice([0.15, 0.3, 0.5, 0.7, 0.85])
     tt = [rng.random() < p for _ in range(1 << k)]
     return bdd_from_tt(nv, variables, tt)
